@@ -1,3 +1,4 @@
+import GlonaxModel.Generated.Consts
 import GlonaxModel.Spec.C17
 /-! THEOREMS C17: all identifiers, lengths, data; filter lists of ANY length. -/
 namespace Glonax.Thm.C17
@@ -96,5 +97,23 @@ example : txBytes { id := 0x0CB34A27, data := [0x5A, 0x43, 0xFF, 0x00, 0xFF] } =
     [0x27, 0x4A, 0xB3, 0x8C, 5, 0, 0, 0, 0x5A, 0x43, 0xFF, 0x00, 0xFF, 0, 0, 0] := by decide
 example : netRecv ⟨[], true⟩ [0x27, 0x4A, 0xB3, 0xEC, 2, 0, 0, 0, 1, 2, 9, 9, 9, 9, 9, 9] =
     some { id := 0x0CB34A27, data := [1, 2, 255, 255, 255, 255, 255, 255] } := by decide
+
+/-! ### the translator tie -/
+
+private theorem obeq (a b : Option Nat) : (a == b) = decide (a = b) := by
+  by_cases h : a = b <;> simp [h]
+private theorem nbeq (a b : Nat) : (a == b) = decide (a = b) := by
+  by_cases h : a = b <;> simp [h]
+
+/-- TRANSLATION THEOREM: the ordered list of checks the translator reads off `FilterItem::matches` in the current source
+computes the model's `itemMatches` for every entry and every identifier; `Filter::matches` and `Filter::push` have the
+shape of `Filter.matches` and of list append -/
+theorem C17_filter_translated (e : FilterItem) (id : Nat) :
+    itemMatchesT Consts.filterItemChecks e id = some (itemMatches e id) ∧
+    Consts.filterMatchesShape = true ∧ Consts.filterPushAppends = true := by
+  refine ⟨?_, by decide, by decide⟩
+  obtain ⟨p, g, s, d⟩ := e
+  cases p <;> cases g <;> cases s <;> cases d <;>
+    simp [itemMatchesT, Consts.filterItemChecks, checkT, itemMatches, itemM2, itemM3, itemM4, bne, Bool.and_comm, obeq, nbeq]
 
 end Glonax.Thm.C17
